@@ -10,6 +10,7 @@ From OIDC Require Import Lib C09_Handler C09_Verifier.
 Record rshape := {
   ro_entry : entry;
   ro_post : bool;          (* POST form instead of GET query *)
+  ro_empty : bool;         (* the `request` parameter is present but empty: both routers treat it as absent *)
   ro_supported : bool;     (* Config.RequestObjectSupported *)
   ro_parses : bool;        (* oidc.ParseToken succeeds: three segments, base64url, payload a JSON object that decodes *)
   ro_cid_ok : bool;        (* client_id claim absent or equal to the request's client_id *)
@@ -21,7 +22,8 @@ Record rshape := {
 (* [plain_err]: the claim checks hand back a plain `error` (nil = no error). false = the defect: a typed
    *oidc.Error result, so that consistent claims enter the error path with a nil pointer *)
 Definition ro_checks (plain_err : bool) (r : rshape) : list check :=
-  if ro_supported r then
+  if ro_empty r then []      (* `RequestParam != ""` guards every use: the request goes on as if there were no object *)
+  else if ro_supported r then
     [chk (ro_parses r) 400 EInvalidRequest;
      chk (ro_cid_ok r) 400 EInvalidRequest;
      chk (ro_rt_ok r) 400 EInvalidRequest;
